@@ -157,7 +157,16 @@ func (b *BinaryExpression) SQL() string {
 	right := operandSQL(b.Right, rightMin)
 
 	if upperOp == "IS NULL" || upperOp == "IS NOT NULL" {
+		if b.Not && upperOp == "IS NULL" {
+			// the parser records IS NOT NULL as Operator "IS NULL" with Not set
+			return fmt.Sprintf("%s IS NOT NULL", left)
+		}
 		return fmt.Sprintf("%s %s", left, upperOp)
+	}
+
+	// NOT EXISTS (...) is recorded as {Left: EXISTS, Operator: "NOT", Right: nil, Not: true}
+	if b.Right == nil && upperOp == "NOT" {
+		return "NOT " + operandSQL(b.Left, precNot)
 	}
 
 	if b.Not {
@@ -215,6 +224,9 @@ func exprPrecedence(e Expression) int {
 	case *BinaryExpression:
 		if v == nil {
 			return precPrimary
+		}
+		if v.Right == nil && strings.EqualFold(v.Operator, "NOT") {
+			return precNot // NOT EXISTS (...)
 		}
 		if v.Not {
 			upper := strings.ToUpper(v.Operator)
